@@ -73,6 +73,27 @@ theorem spec_dec_enc (b : Bytes) : dec (enc b) = some b := Base58Proofs.spec_dec
 theorem spec_enc_dec (s : List Char) (b : Bytes) (h : dec s = some b) : enc b = s :=
   Base58Proofs.spec_enc_dec s b h
 
+/-- consequence of the two inverse laws: encoding is injective on byte strings … -/
+theorem encode_injective (a b : Bytes) (h : encode a = encode b) : a = b := by
+  have ha := decode_encode a
+  rw [h, decode_encode b] at ha
+  injection ha with ha
+  exact ha.symm
+
+/-- … and decoding is injective on the strings it accepts (no two texts denote one byte string) -/
+theorem decode_injective (s t : List Char) (b : Bytes) (hs : decode s = .ok b) (ht : decode t = .ok b) :
+    s = t := by
+  rw [decode_eq_spec] at hs ht
+  have hs' : dec s = some b := by
+    cases h : dec s with
+    | none => rw [h] at hs; cases hs
+    | some x => rw [h] at hs; injection hs with hs; rw [hs]
+  have ht' : dec t = some b := by
+    cases h : dec t with
+    | none => rw [h] at ht; cases ht
+    | some x => rw [h] at ht; injection ht with ht; rw [ht]
+  rw [← spec_enc_dec s b hs', ← spec_enc_dec t b ht']
+
 /-- `CBase58Data(s)` = reference decoding followed by the reference check rule, on every string -/
 theorem check_eq_spec (H : Bytes → Bytes) (s : List Char) :
     Model.Base58.new H s =
